@@ -3,7 +3,7 @@
    generated no-panic condition holds for every script. *)
 From Coq Require Import List Arith NArith Bool Lia ZifyBool ZifyN ZifyNat.
 From Coq.Strings Require Import Byte.
-From EV Require Import Base.Bytes Gen.Tables Model.Script Gen.SrcScript Gen.SrcAddr Proofs.SrcScript.
+From EV Require Import Base.Bytes Gen.Tables Model.Script Gen.SrcScript Gen.SrcAddr Proofs.SrcScript Proofs.ScriptTemplates.
 Import ListNotations.
 Open Scope N_scope.
 
@@ -63,3 +63,10 @@ Qed.
    script is the original script (through the model's from_script_spk) *)
 Corollary src_from_script_total s : exists r, from_script s = Val r.
 Proof. eexists. apply src_from_script_is_model. Qed.
+(* whenever the translated from_script yields a payload, the script that pays to that payload is the original script *)
+Theorem src_from_script_roundtrip p s r : src_from_script s = Some r -> script_pubkey p (match payload_of (Some r) with Some a => a | None => PubkeyHash [] end) = Val s.
+Proof.
+  intro E. pose proof (src_from_script_is_model s) as M. rewrite E in M.
+  destruct (payload_of (Some r)) as [a|] eqn:P; [|destruct r as [[k v] d]; discriminate].
+  exact (Proofs.ScriptTemplates.from_script_spk p s a M).
+Qed.
